@@ -1312,14 +1312,14 @@ def parse_map_literal(lexer, token):
             return deref_or_invoke(lexer, comprehension)
         else:
             m = NodeMap(token.pos)
-            if isinstance(key, NodeIdentifier):
+            if isinstance(key, NodeIdentifier) and key.value != "NULL":
                 key = NodeLiteral(ValueString(key.value), key.pos)
             m.addKeyValue(key, value)
             if not lexer.peekn(1, ">>>", "interpunction"):
                 lexer.match(",", "interpunction")
             while not lexer.peekn(1, ">>>", "interpunction"):
                 key = parse_expression(lexer)
-                if isinstance(key, NodeIdentifier):
+                if isinstance(key, NodeIdentifier) and key.value != "NULL":
                     key = NodeLiteral(ValueString(key.value), key.pos)
                 lexer.match("=>", "interpunction")
                 value = parse_expression(lexer)
